@@ -124,7 +124,7 @@ func runCase(c Case) (res vt.Result, fail *vt.Fail) {
 	if c.Kind == "oci-tags" {
 		return runOCITags(ctx, c, items, last, res)
 	}
-	reg := regmodel.New(host, regmodel.Profile{ReferrersAPI: true, PageCap: c.PageCap, LinkStyle: c.LinkStyle, EmptyLastPage: c.EmptyLast, OmitEmptyList: c.OmitEmpty, FilterMode: c.FilterMode, ChunkedLists: c.Chunked})
+	reg := regmodel.New(host, regmodel.Profile{NoDigestHeader: c.TagSchema && c.Items%2 == 1, ReferrersAPI: true, PageCap: c.PageCap, LinkStyle: c.LinkStyle, EmptyLastPage: c.EmptyLast, OmitEmptyList: c.OmitEmpty, FilterMode: c.FilterMode, ChunkedLists: c.Chunked})
 	if c.PlainHTTP {
 		reg.Scheme = "http"
 	}
@@ -202,7 +202,7 @@ func runCase(c Case) (res vt.Result, fail *vt.Fail) {
 		rp.Manifests[subjectDigest] = &regmodel.Manifest{Bytes: subj, MediaType: gen.MTImage}
 		var refs []referrer
 		for i := 0; i < c.Items; i++ {
-			at := []string{"application/vnd.a", "application/vnd.b"}[i%2]
+			at := []string{"application/vnd.a+json", "application/vnd.b"}[i%2]
 			b := []byte(fmt.Sprintf(`{"schemaVersion":2,"mediaType":"application/vnd.oci.image.manifest.v1+json","artifactType":%q,"config":{"mediaType":"application/vnd.oci.empty.v1+json","digest":"sha256:44136fa355b3678a1146ad16f7e8649e94fb4fc21fe77e8310c060f61caaff8a","size":2},"layers":[],"subject":{"mediaType":"application/vnd.oci.image.manifest.v1+json","digest":%q,"size":%d},"annotations":{"i":"%d"}}`, at, subjectDigest, len(subj), i))
 			dg := regmodel.DigestOf("sha256", b)
 			rp.Manifests[dg] = &regmodel.Manifest{Bytes: b, MediaType: gen.MTImage}
@@ -211,7 +211,7 @@ func runCase(c Case) (res vt.Result, fail *vt.Fail) {
 		sort.Slice(refs, func(i, j int) bool { return refs[i].digest < refs[j].digest })
 		filter := ""
 		if c.FilterReq {
-			filter = "application/vnd.a"
+			filter = "application/vnd.a+json"
 		}
 		for _, r := range refs {
 			if filter == "" || r.at == filter {
